@@ -7,7 +7,8 @@
    growing or shrinking one block leaves the bytes of every OTHER live block alone.
    PARTIAL: commit's moves (C15) are stated per operation only. *)
 From Coq Require Import ZArith List Bool.
-From BS Require Import Word BumpSpec ChunkSpec Arena ArenaInv ArenaMem ArenaMem2.
+From BS Require Import Word BumpSpec ChunkSpec Arena ArenaInv ArenaMem ArenaMem2 LibRefine AllocRefine.
+From BS.gen Require AllocSites.
 Import ListNotations.
 Open Scope Z_scope.
 
@@ -93,6 +94,34 @@ Theorem C02_shrink_keeps_other_blocks :
   mem (fst (step c s0 (OShrink h ws b nsize nalign) r)) a = mem s0 a.
 Proof. exact shrink_keeps_other_blocks. Qed.
 
+(* the position arithmetic of the CURRENT allocator_impl.rs / set_pos_addr_and_align (cut out by tools/allocsites.py, translated into gen/AllocSites.v on every run) is the arena model's (AllocRefine.v): which copy overlaps *)
+Theorem C02_source_grow_down_is_the_models :
+  forall ptr osize nsize nalign m very_start,
+  valid_min_align m -> pow2 nalign -> nalign < W -> 0 <= ptr < W -> 0 <= osize <= nsize ->
+  let new_addr := down_alignZ (Z.max (ptr - (nsize - osize)) 0) (Z.max nalign m) in
+  new_addr + nsize < W ->
+  AllocSites.grow_down_additional nsize osize = Ok (nsize - osize) /\
+  AllocSites.grow_down_new_addr ptr (nsize - osize) nalign m = Ok new_addr /\
+  AllocSites.grow_down_fits new_addr very_start = Ok (very_start <=? new_addr) /\
+  AllocSites.grow_down_new_addr_end new_addr nsize = Ok (new_addr + nsize) /\
+  AllocSites.grow_down_nonoverlapping (new_addr + nsize) ptr = Ok (new_addr + nsize <? ptr).
+Proof. exact grow_down_refines. Qed.
+
+Theorem C02_source_shrink_down_is_the_models :
+  forall ptr osize nsize nalign m,
+  valid_min_align m -> pow2 nalign -> nalign < W -> 0 <= ptr -> 0 <= nsize <= osize -> ptr + osize < W ->
+  let new_addr := down_alignZ (Z.max (ptr + osize - nsize) 0) (Z.max nalign m) in
+  AllocSites.shrink_down_old_end ptr osize = Ok (ptr + osize) /\
+  AllocSites.shrink_down_new_addr (ptr + osize) nsize nalign m = Ok new_addr /\
+  AllocSites.shrink_down_copy_src_end ptr nsize = Ok (ptr + nsize) /\
+  AllocSites.shrink_down_overlaps (ptr + nsize) new_addr = Ok (new_addr <? ptr + nsize).
+Proof. exact shrink_down_refines. Qed.
+
+Theorem C02_source_unfit_ends_are_the_models :
+  forall ptr np nsize, 0 <= ptr -> 0 <= np -> 0 <= nsize -> ptr + nsize < W -> np + nsize < W ->
+  AllocSites.unfit_up_old_end ptr nsize = Ok (ptr + nsize) /\ AllocSites.unfit_down_new_end np nsize = Ok (np + nsize).
+Proof. exact unfit_ends_refine. Qed.
+
 Print Assumptions C02_alloc_frame.
 Print Assumptions C02_shrink_keeps_other_blocks.
 Print Assumptions C02_grow_contents_and_frame.
@@ -102,3 +131,6 @@ Print Assumptions C02_zeroed_reads_zero.
 Print Assumptions C02_fill_frame.
 Print Assumptions C02_no_write_ops.
 Print Assumptions C02_without_shrink_unfixed_refuted.
+Print Assumptions C02_source_grow_down_is_the_models.
+Print Assumptions C02_source_shrink_down_is_the_models.
+Print Assumptions C02_source_unfit_ends_are_the_models.
